@@ -50,6 +50,14 @@ class StmtMixin:
         if isinstance(node, ast.Assign) and isinstance(node.targets[0], ast.Name):
             st.set(node.targets[0].id, self.ev(node.value, st, True))
             return
+        if isinstance(node, ast.Assign) and isinstance(node.targets[0], ast.Attribute):
+            # ghost field update:  obj.ghost_x = expr   (only fields whose name starts with ghost_)
+            t = node.targets[0]
+            if not t.attr.startswith("ghost_"):
+                raise Unsupported("ghost code may only assign ghost_* fields")
+            obj = self.ev(t.value, st, True)
+            self.write_field(obj, t.attr, self.ev(node.value, st, True), st)
+            return
         raise Unsupported("ghost statement %r" % text)
 
     def use_lemma(self, text, st):
